@@ -70,6 +70,7 @@ Record icase := {
   c_world : world;
   c_faults : list step;
   c_flags : flags;
+  c_topnamed : bool;             (* the directory Invoke is given (-d) is itself called magefiles *)
   c_ohf : bool;                  (* Magefiles(originalDir) found magefiles next to a magefiles directory *)
   c_crash : option nat;          (* Some k: killed after k steps *)
   c_fs : fs;                     (* the directory before *)
@@ -80,27 +81,28 @@ Inductive case :=
 | CInvoke (c : icase)
 | CInit (open_fault write_fault : bool) (tpl partial : bytes) (before after : fs) (exit : nat)
 | CClean (cache : string) (before after : fs) (exit : nat)
+| CNoop (before after : fs)      (* -version, -h, a rejected command line: nothing may change *)
 | CListGen (listed : bool).      (* is the complete generated file listed as a magefile by mage.Magefiles? *)
 
 (* the directory Invoke ends up running in (the first lines of Invoke, as in Lifecycle.invoke) *)
-Definition effective (w : world) (ohf : bool) (d : fs) : fs * bool :=
+Definition effective (w : world) (tn ohf : bool) (d : fs) : fs * bool :=
   let d1 := rs w d in
   match lookup d1 magefilesDir with
-  | Some (Dir sub) => if ohf then (set magefilesDir (Dir (rs w sub)) d1, false) else (rs w sub, true)
-  | _ => (d1, false)
+  | Some (Dir sub) => if ohf then (set magefilesDir (Dir (rs w sub)) d1, tn) else (rs w sub, true)
+  | _ => (d1, tn)
   end.
 
 Definition model_invoke (c : icase) : obs :=
   let w := c_world c in
   let f := faults_of (c_faults c) in
-  let '(d, mf) := effective w (c_ohf c) (c_fs c) in
+  let '(d, mf) := effective w (c_topnamed c) (c_ohf c) (c_fs c) in
   let fl := with_mfdir (c_flags c) mf in
   match c_crash c with
   | Some k =>
       {| ob_fs := crash_dir w f fl k (c_fs c); ob_exit := None; ob_stage := SAny; ob_calls := None |}
   | None =>
       let o := invoke_dir_full w f fl d in
-      let '(after, code) := invoke w f (c_flags c) (c_ohf c) (c_fs c) in
+      let '(after, code) := invoke_named w f (c_flags c) (c_topnamed c) (c_ohf c) (c_fs c) in
       {| ob_fs := after; ob_exit := Some code; ob_stage := stage_of (o_at o); ob_calls := Some (o_calls o) |}
   end.
 
@@ -130,6 +132,7 @@ Definition check (c : case) : option answer :=
   | CClean cache before after code =>
       let '(d, e) := clean_cmd false (fun _ => false) cache before in
       if fs_eqb d after && Nat.eqb e code then None else Some (AFs d e)
+  | CNoop before after => if fs_eqb before after then None else Some (AFs before 0)
   | CListGen listed => if Bool.eqb listed gen_listed then None else Some (AListed gen_listed)
   end.
 
